@@ -538,7 +538,9 @@ class _GenerateRenderMethod:
         if has_loop:
             self.printer.writeline("loop = __M_loop = runtime.LoopStack()")
 
-        for ident in to_write:
+        # names fetched from the context come first: the argument defaults
+        # of the callables declared here may refer to them
+        for ident in sorted(to_write, key=lambda ident: ident in comp_idents):
             if ident in comp_idents:
                 comp = comp_idents[ident]
                 if comp.is_block:
